@@ -142,8 +142,8 @@ def run(ctx):
         explore(ctx, model, spec)
     if ctx.thorough:
         lib.coqchk(ctx, "C01")
-    ctx.rule = ("real send_message under a virtual clock: every message kind (11, incl. same-id server request, int twin of a digit id, "
-                "batch list holding a matching response) x 13 arrival times around the 0.5 s boundaries and the deadline x 6 id shapes "
+    ctx.rule = ("real send_message under a virtual clock: every message kind (13, incl. same-id server request, int twin of a digit id, "
+                "batch list holding a matching response, null-id error response, id-less result) x 13 arrival times around the 0.5 s boundaries and the deadline x 6 id shapes "
                 "(length 1, exhaustive), all ordered time pairs x kind pairs (length 2), seeded histories up to length 40; "
                 "distinct = distinct scenario dicts, non-trivial = at least one arrival")
     return lib.finish(ctx, TRUSTED, ASSUME)
